@@ -117,9 +117,33 @@ def literal_part(out):
   return queries, proved
 
 
+def validate_literal_eval():
+  """the contract assumed by the stub of ast.literal_eval in the single-quoted kernels, checked
+  against the interpreter: a backslash/quote/line-break free body denotes itself."""
+  import ast
+  bad = []
+  n = 0
+  cps = list(range(0x20, 0x300)) + list(range(0x300, 0x10000, 97)) + list(range(0x10000, 0x110000, 4099))
+  for cp in cps:
+    if cp in (0x27, 0x5c) or 0xD800 <= cp <= 0xDFFF:
+      continue
+    body = 'a' + chr(cp) + chr(cp)
+    n += 1
+    try:
+      if ast.literal_eval("'" + body + "'") != body:
+        bad.append(cp)
+    except Exception:  # noqa: BLE001
+      bad.append(cp)
+  return bad, n
+
+
 def run():
   t0 = time.time()
   out = fw.Outcome('C10', 'other', t0)
+  bad, nchecked = validate_literal_eval()
+  out.coverage['literal_eval_contract_validated_on_code_points'] = nchecked
+  if bad:
+    out.harness_errors.append('ast.literal_eval is not the identity on backslash-free bodies with code points %r' % bad[:5])
   thorough = fw.tier() == 'thorough'
   queries, proved = literal_part(out)
   src = K.HEAD + K.BODY.replace('%(FLAGLEN)d', '3')
@@ -150,7 +174,8 @@ def run():
       'alphabet: tab, newline and every code point >= 0x20; other control characters (whose escapes differ between engines) are outside the claim; json.dumps is assumed to be the identity outside the tabulated specials (checked on 2000+ code points per run)',
       'flags: values of length <=3, one user flag f and one other flag g; a value spelling ${f} or ${g} is excluded (flags may refer to flags by design)',
       'k_flag_value_is_data and k_function_args_verbatim are bug-hunting only: CrossHair does not reach "Confirmed" on str.replace / % formatting of symbolic strings within 60 s; nothing is claimed from them',
-      'outside: single-quoted Logica literals (decoded by ast.literal_eval), literals longer than N',
+      'single-quoted Logica literals: bodies of <=3 (ASCII) / <=2 (Latin-1, BMP) / 1 (astral) code points without backslash, quote or line break, with ast.literal_eval replaced by its contract on that sub-domain (identity; validated against the interpreter on ~1500 code points per run); backslash escapes inside single-quoted literals are outside the claim',
+      'outside: literals longer than N',
   ]
   return out.finish()
 
